@@ -46,7 +46,8 @@ inductive Clause where
   | healthyIff      -- healthy ⇔ the check reached the endpoint and got a (fast) 2xx
   | classification  -- connection error / timeout ⇒ offline, error status / other error ⇒ unhealthy, short-circuited ⇒ not healthy
   | schedule        -- delay = interval × 1,2,4,8,12,12,… while that is ≤ 60 s; = interval after a success
-  | capped          -- after a failure the delay never exceeds 60 s (and is 60 s when the product exceeds it)
+  | capped          -- after the 2nd, 3rd, … consecutive failure the delay never exceeds 60 s (and is 60 s when the product exceeds it)
+  | cappedFirst     -- the same after the first failure (only matters for check_interval > 60 s)
   | realProbe       -- a check is short-circuited only within breakerTimeout of ≥ threshold real failures in a row
   | gapBound        -- ideal scheduler: consecutive real probes are at most 60 s + breakerTimeout apart
   | callback        -- one callback per not-healthy(≠unknown) → healthy transition, none otherwise
@@ -54,11 +55,11 @@ inductive Clause where
 deriving Repr, DecidableEq
 
 def Clause.all : List Clause :=
-  [.healthyIff, .classification, .schedule, .realProbe, .gapBound, .callback, .proxyFail, .capped]
+  [.healthyIff, .classification, .schedule, .realProbe, .gapBound, .callback, .proxyFail, .capped, .cappedFirst]
 
 def Clause.name : Clause → String
   | .healthyIff => "healthy-iff-2xx" | .classification => "classification" | .schedule => "backoff-schedule"
-  | .capped => "failure-delay-exceeds-cap" | .realProbe => "short-circuit-outside-breaker-hold"
+  | .capped => "failure-delay-exceeds-cap" | .cappedFirst => "first-failure-delay-exceeds-cap" | .realProbe => "short-circuit-outside-breaker-hold"
   | .gapBound => "probe-gap-bound" | .callback => "recovery-callback" | .proxyFail => "proxy-failure-bookkeeping"
 
 structure Ghost where
@@ -106,7 +107,10 @@ def clauseOk (P : Params) (k : Clause) (g : Ghost) (op : Op) (o : Obs) : Bool :=
          else o.delay == P.interval)
       else true
   | .capped =>
-      if failed then decide (o.delay ≤ capLit) && (if P.interval * seqLit (g.fails + 1) > capLit then o.delay == capLit else true)
+      if failed && decide (g.fails ≥ 1) then decide (o.delay ≤ capLit) && (if P.interval * seqLit (g.fails + 1) > capLit then o.delay == capLit else true)
+      else true
+  | .cappedFirst =>
+      if failed && decide (g.fails = 0) then decide (o.delay ≤ capLit) && (if P.interval * seqLit (g.fails + 1) > capLit then o.delay == capLit else true)
       else true
   | .realProbe =>
       match outcomeOf op with
